@@ -46,12 +46,17 @@ pub fn seeds() -> Vec<Seed> {
                 ("adf" | "idf", _) => (80, 2 + variant as i32),
                 ("ata", _) => (40, 3),
                 ("bin", _) => (80, 2),
+                ("seq", _) => (40, 3),
                 (_, 0) => (8, 3),
                 (_, 1) => (80, 2),
                 (_, 2) => (3, 1),
                 _ => (16, 4),
             };
             let mut b = doc(w, h, fi as u64 * 10 + variant);
+            if *ext == "ata" {
+                // the ATASCII writer only takes 7-bit characters
+                for y in 0..h { for x in 0..w { let mut c = b.layers[0].get_char((x, y)); if c.is_visible() { c.ch = char::from_u32(0x20 + (c.ch as u32 % 0x5F)).unwrap(); b.layers[0].set_char((x, y), c); } } }
+            }
             match *ext {
                 "idf" | "adf" => b.ice_mode = icy_engine::IceMode::Ice,
                 "seq" => b.buffer_type = icy_engine::BufferType::Petscii,
@@ -82,6 +87,8 @@ pub fn seeds() -> Vec<Seed> {
             }
         }
     }
+    // the PETSCII writer is not implemented: hand-written .seq content
+    res.push(Seed { name: "seq-hand".into(), ext: "seq".into(), bytes: b"\x93\x05HELLO\x0d\x12REV\x92 \x1c\x9f\x11\x1d\x9d\x91\x13\x0e\x8e\x14A".to_vec() });
     // fonts and TheDraw fonts
     if let Ok(Ok(p)) = guard(|| BitFont::default().to_psf2_bytes()) { res.push(Seed { name: "psf2".into(), ext: "psf".into(), bytes: p }); }
     let mut psf1 = vec![0x36, 0x04, 0, 8];
@@ -215,7 +222,7 @@ pub fn cases(seed: u64, thorough: bool, faults: &[Value]) -> Vec<LCase> {
             push(&mut out, format!("corrupt{i}:{desc}"), b);
         }
         // TLC-derived structural faults (Gen_Loader): truncations at structure boundaries and field extremes
-        for f in faults {
+        for (fi, f) in faults.iter().enumerate() {
             if f["seed"].as_str() != Some(s.name.as_str()) { continue; }
             let mut b = s.bytes.clone();
             match f["kind"].as_str().unwrap_or("") {
@@ -229,7 +236,7 @@ pub fn cases(seed: u64, thorough: bool, faults: &[Value]) -> Vec<LCase> {
                 }
                 _ => continue,
             }
-            push(&mut out, format!("tlc:{}", f["id"].as_str().unwrap_or("?")), b);
+            push(&mut out, format!("tlc:{fi}:{}:{}", f["kind"].as_str().unwrap_or("?"), f["field"].as_str().unwrap_or("?")), b);
         }
         // the same bytes under every other extension
         if is_file {
@@ -237,6 +244,52 @@ pub fn cases(seed: u64, thorough: bool, faults: &[Value]) -> Vec<LCase> {
                 if *e != s.ext { out.push(LCase { ext: (*e).to_string(), seed: s.name.clone(), mutation: "as-other-extension".into(), bytes: s.bytes.clone() }); }
             }
         }
+    }
+    // IcyDraw: the records live in compressed PNG text chunks - mutate the decoded chunk payloads and wrap them again
+    for s in sds.iter().filter(|s| s.ext == "icy") {
+        let chunks = crate::unicode::read_chunks(&s.bytes);
+        for (ci, (kw, payload)) in chunks.iter().enumerate() {
+            let n = payload.len();
+            let mut muts: Vec<(String, Vec<u8>)> = vec![];
+            let stride = if n > 600 && !thorough { (n / 200).max(1) } else { 1 };
+            let mut k = 0;
+            while k < n { muts.push((format!("trunc:{k}"), payload[..k].to_vec())); k += if k < 120 || k + 40 > n { 1 } else { stride }; }
+            for off in 0..n.min(72) {
+                for val in [0u8, 1, 0x7F, 0x80, 0xFF] { if payload[off] != val { let mut b = payload.clone(); b[off] = val; muts.push((format!("byte:{off}={val}"), b)); } }
+                if off + 4 <= n { for val in [0xFFFF_FFFFu32, 0x7FFF_FFFF, 0x8000_0000, 0x0001_0000] { let mut b = payload.clone(); b[off..off + 4].copy_from_slice(&val.to_le_bytes()); muts.push((format!("u32:{off}={val}"), b)); } }
+            }
+            for i in 0..(if thorough { 200 } else { 30 }) {
+                if n == 0 { break; }
+                let mut b = payload.clone();
+                for _ in 0..r.gen_range(1..=3) { let o = r.gen_range(0..n); b[o] = r.gen(); }
+                muts.push((format!("corrupt{i}"), b));
+            }
+            for (m, b) in muts {
+                let mut cs = chunks.clone();
+                cs[ci].1 = b;
+                out.push(LCase { ext: "icy".into(), seed: s.name.clone(), mutation: format!("chunk:{kw}:{m}"), bytes: crate::unicode::write_chunks(&cs) });
+            }
+            // structural: chunk dropped, duplicated, moved to the front, renamed to a continuation / out-of-range layer
+            let mut cs = chunks.clone(); cs.remove(ci);
+            out.push(LCase { ext: "icy".into(), seed: s.name.clone(), mutation: format!("chunk:{kw}:dropped"), bytes: crate::unicode::write_chunks(&cs) });
+            let mut cs = chunks.clone(); cs.insert(ci, chunks[ci].clone());
+            out.push(LCase { ext: "icy".into(), seed: s.name.clone(), mutation: format!("chunk:{kw}:duplicated"), bytes: crate::unicode::write_chunks(&cs) });
+            let mut cs = chunks.clone(); let c = cs.remove(ci); cs.insert(0, c);
+            out.push(LCase { ext: "icy".into(), seed: s.name.clone(), mutation: format!("chunk:{kw}:first"), bytes: crate::unicode::write_chunks(&cs) });
+            for newkw in ["LAYER_0~1", "LAYER_7", "LAYER_7~1", "LAYER_", "LAYER_x", "FONT_99999999999", "FONT_x", "LAYER_99999999999~99999999999"] {
+                let mut cs = chunks.clone(); cs[ci].0 = newkw.to_string();
+                out.push(LCase { ext: "icy".into(), seed: s.name.clone(), mutation: format!("chunk:{kw}:renamed:{newkw}"), bytes: crate::unicode::write_chunks(&cs) });
+            }
+        }
+    }
+    // terminal streams as FILES: the text loaders parse into a non-terminal buffer (different clamping than a terminal)
+    for k in 0..(if thorough { 8000u64 } else { 1500 }) {
+        let emus = ["ansi", "avatar", "pcboard", "ctrla", "renegade", "petscii", "atascii", "ascii"];
+        let exts = ["ans", "avt", "pcb", "msg", "an1", "seq", "ata", "asc"];
+        let i = (k % 8) as usize;
+        let c = crate::term::gen_case(seed, 7_000_000 + k, emus[i], k % 16 >= 8, false);
+        out.push(LCase { ext: exts[i].to_string(), seed: "stream".into(), mutation: format!("stream{k}"), bytes: c.bytes.clone() });
+        if k % 5 == 0 { out.push(LCase { ext: ["ice", "diz", "nfo", "zzz", ""][(k / 5 % 5) as usize].to_string(), seed: "stream".into(), mutation: format!("stream{k}"), bytes: c.bytes }); }
     }
     // SAUCE tails: every kind of 128-byte tail that starts with "SAUCE", on short and long contents
     let mut rec = vec![0u8; 128];
@@ -302,7 +355,10 @@ pub fn c02(a: &Args) {
     let faults: Vec<Value> = std::fs::read_to_string(a.str("faults", "gen/loader_faults.ndjson")).map(|t| t.lines().filter_map(|l| serde_json::from_str(l).ok()).collect()).unwrap_or_default();
     if a.has("dump-seeds") {
         let mut o = Out::create(&a.str("dump-seeds", ""));
-        for s in seeds() { o.ev(&json!({"name":s.name,"ext":s.ext,"len":s.bytes.len(),"head":s.bytes.iter().take(64).collect::<Vec<_>>()})); }
+        for s in seeds() {
+            let n = s.bytes.len();
+            o.ev(&json!({"name":s.name,"ext":s.ext,"len":n,"head":s.bytes.iter().take(64).collect::<Vec<_>>(),"tail":s.bytes[n.saturating_sub(200)..].to_vec()}));
+        }
         return;
     }
     let all = cases(seed, thorough, &faults);
